@@ -5,12 +5,17 @@ replaced by recording stubs: what is printed is exactly what the selected front-
 bytes, type and command code; refusals return non-zero without decoding."""
 from __future__ import annotations
 
+import os
+import re
 import types as _types
 
 from pyvc.explore import explore, Ctx
 from pyvc.harness import Report, UnitResult, run_units
 from pyvc.interp import Interp, IGen, PyExc, run_sync
 from checks.common import mod
+from pyvc.harness import ROOT
+
+ANSI = re.compile(r"\x1b\[[0-9;]*m")
 
 
 def MAIN():
@@ -206,6 +211,163 @@ def unit_names(part=0, parts=1):
     return u
 
 
+_CORPUS = {}
+
+
+def example_corpus():
+    """two synthetic 'capture files': well-formed command/response pairs for every command code (generated from the pinned
+    layout), decoded by the library into objects"""
+    if _CORPUS:
+        return _CORPUS["files"]
+    import random
+    import sys
+
+    sys.path.insert(0, os.path.join(ROOT, "spec"))
+    import witness
+    from checks.common import layout
+    from tpmstream.common.object import events_to_objs
+    from tpmstream.io.binary import Binary
+    from tpmstream.spec.commands import CommandResponseStream
+
+    L = layout()
+    g = witness.Gen(L, random.Random(19))
+    ccs = sorted(L["commands"])
+    files = []
+    for half in (ccs[::2], ccs[1::2] + ccs[:6]):  # the second file repeats a few codes (different random contents)
+        data = b""
+        for c in half:
+            data += g.command(c, sessions=0) + g.response(c, sessions=0, rc=0)
+        objs = list(events_to_objs(Binary.marshal(tpm_type=CommandResponseStream, buffer=data, abort_on_error=True)))
+        files.append(objs)
+    _CORPUS["files"] = files
+    return files
+
+
+def unit_examples(part=0, parts=1):
+    """`example X`: the real examples() with the capture files replaced by the synthetic corpus (open / bytes_from_files /
+    Auto.marshal / events_to_objs stubbed, everything else real).  For every command code and a sample of type names the
+    printed text must be exactly: for each object in file order whose command code is X (commands by commandCode, responses by
+    the code they answer) - or, for a type X, each sub-object of exactly type X of every object - once per distinct encoding:
+    '<type name>: <hex chunks>', the pretty rows of that object's events, a blank line.  Names that are neither are refused."""
+    import contextlib
+    import io
+
+    Mn = MAIN()
+    from tpmstream.spec import all_types
+    from tpmstream.spec.structures.constants import TPM_CC
+    from tpmstream.common.object import obj_to_events
+    from tpmstream.io.binary import Binary
+    from tpmstream.io.pretty import Pretty
+    import dataclasses
+
+    u = UnitResult(f"C19/EXAMPLE/part{part}")
+    u.functions = ["tpmstream.__main__:examples", "tpmstream.__main__:find_fields"]
+    files = example_corpus()
+    cc_names = {Mn.cc_name(cc): cc for cc in TPM_CC}
+    type_names = {t.__name__: t for t in all_types}
+
+    def sub_objects(T, obj):
+        if type(obj) is T:
+            yield obj
+        if dataclasses.is_dataclass(obj) and not isinstance(obj, type):
+            for f in dataclasses.fields(obj):
+                yield from sub_objects(T, getattr(obj, f.name))
+
+    def block(obj):
+        evs = list(obj_to_events(obj))
+        chunks = list(Binary.unmarshal(evs))
+        text = f"{type(obj).__name__}:" + "".join(" " + c.hex() for c in chunks) + "\n"
+        text += "".join(line + "\n" for line in Pretty.unmarshal(evs)) + "\n"
+        return b"".join(chunks), text
+
+    def expected(name):
+        seen, out = set(), ""
+        for objs in files:
+            for obj in objs:
+                if name in cc_names:
+                    cc = cc_names[name]
+                    code = getattr(obj, "commandCode", None) if hasattr(obj, "commandCode") else getattr(obj, "_command_code", None)
+                    sel = [obj] if code is not None and int(code) == int(cc) else []
+                else:
+                    sel = list(sub_objects(type_names[name], obj))
+                for o in sel:
+                    b, text = block(o)
+                    if b in seen:
+                        continue
+                    seen.add(b)
+                    out += text
+        return out
+
+    def run(name):
+        tokens = [object() for _ in files]
+        state = {"i": -1}
+
+        class _F:
+            def __enter__(self):
+                return self
+
+            def __exit__(self, *a):
+                return False
+
+        def fake_open(path, mode="r"):
+            state["i"] += 1
+            return _F()
+
+        class _Auto:
+            @staticmethod
+            def marshal(**kw):
+                return tokens[state["i"]]
+
+        saved = {k: Mn.__dict__.get(k, _MISSING) for k in ("example_data_files", "open", "bytes_from_files", "Auto", "events_to_objs")}
+        try:
+            Mn.example_data_files = [f"file{i}" for i in range(len(files))]
+            Mn.open = fake_open
+            Mn.bytes_from_files = lambda f: b""
+            Mn.Auto = _Auto
+            Mn.events_to_objs = lambda ev: iter(files[tokens.index(ev)])
+            buf, err = io.StringIO(), io.StringIO()
+            with contextlib.redirect_stdout(buf), contextlib.redirect_stderr(err):
+                try:
+                    ret = Mn.examples(_types.SimpleNamespace(command=name))
+                except Exception as e:  # noqa
+                    ret = f"raised {type(e).__name__}: {e}"
+            return ret, buf.getvalue(), err.getvalue()
+        finally:
+            for k, v in saved.items():
+                if v is _MISSING:
+                    Mn.__dict__.pop(k, None)
+                else:
+                    setattr(Mn, k, v)
+
+    names = sorted(cc_names) + sorted(type_names)[::5] + ["TPMT_PUBLIC", "TPM2B_DIGEST", "TPMS_AUTH_COMMAND", "TPM_CC", "TPMA_OBJECT"]
+    bad = []
+    shown = 0
+    for n in names[part::parts]:
+        if n not in cc_names and n not in type_names:
+            continue
+        ret, out, err = run(n)
+        exp = expected(n)
+        shown += exp.count("\n\n")
+        if ret != 0 or ANSI.sub("", out) != ANSI.sub("", exp):
+            a, b = ANSI.sub("", out).splitlines(), ANSI.sub("", exp).splitlines()
+            k = next((i for i, (x, y) in enumerate(zip(a, b)) if x != y), min(len(a), len(b)))
+            bad.append(f"example {n}: returned {ret!r}, {len(a)} lines printed, {len(b)} expected; first difference at line {k}: {a[k][:80] if k < len(a) else None!r} vs {b[k][:80] if k < len(b) else None!r}")
+    _ob(u, f"C19/EXAMPLE/part{part}/prints-exactly-the-examples-of-the-sought-command-code-or-type-once-each", not bad, f"{len(names[part::parts])} names, {shown} example blocks; " + "; ".join(bad[:3]), site="__main__.py:examples")
+    if part == 0:
+        bad = []
+        for n in ("Startupp", "TStartup", "startup", "TPM2B_DIGES", "tpm2b_digest", "TPM_CC_Startup"):
+            ret, out, err = run(n)
+            if not (isinstance(ret, int) and ret != 0 and out == "" and err):
+                bad.append(f"example {n!r}: returned {ret!r}, printed {len(out)} characters")
+        _ob(u, "C19/EXAMPLE/unknown-name-is-refused-with-a-suggestion-and-prints-no-example", not bad, "; ".join(bad[:3]), site="__main__.py:examples")
+        ret, out, err = run(None)
+        _ob(u, "C19/EXAMPLE/without-a-name-lists-every-command-code-name", out.splitlines() == [Mn.cc_name(cc) for cc in TPM_CC], f"{len(out.splitlines())} lines", site="__main__.py:examples")
+    return u
+
+
+_MISSING = object()
+
+
 def unit_parse_all_types():
     Mn = MAIN()
     from tpmstream.spec import all_types
@@ -329,7 +491,7 @@ def run(tier, seed, only=None):
     rep.trusted_base = ["pyvc's reading of Python", "argparse, sys.exit, difflib, file objects: not modelled (not claimed)"]
     rep.assumptions = ["the library calls are stubs here: their behaviour is C01-C15"]
     rep.replayer = replayer
-    jobs = [(unit_convert, ())] + [(unit_names, (i, 12)) for i in range(12)] + [(unit_parse_all_types, ()), (unit_small, ())]
+    jobs = [(unit_convert, ())] + [(unit_names, (i, 12)) for i in range(12)] + [(unit_examples, (i, 8)) for i in range(8)] + [(unit_parse_all_types, ()), (unit_small, ())]
     if only:
         jobs = [j for j in jobs if only in repr(j)]
     rep.add(run_units(jobs))
